@@ -178,14 +178,18 @@ def sx_range(*args):
 def sx_print(*args, sep=" ", end="\n", file=None, flush=False):
     if not _active() and not any(has_sym(a) for a in args):
         return print(*args, sep=sep, end=end, file=file, flush=flush)
-    parts = []
-    for i, a in enumerate(args):
-        if i and sep:
-            parts.extend(tstr._parts(sep))
-        parts.extend(tstr._parts(a))
-    parts.extend(tstr._parts(end))
+    # same sequence of write() calls as the builtin: every argument, the separator between
+    # arguments (even when empty), then the end string, then flush
     out = file if file is not None else sys.stdout
-    out.write(tstr.maybe_concrete(TStr(parts)))
+    if sep is None:
+        sep = " "
+    if end is None:
+        end = "\n"
+    for i, a in enumerate(args):
+        if i:
+            out.write(sep)
+        out.write(a if isinstance(a, (str, TStr)) else tstr.maybe_concrete(TStr(tstr._parts(a))))
+    out.write(end)
     if flush:
         out.flush()
 
